@@ -35,6 +35,7 @@ THEOREMS = [
     "C09_udp_512_tc_exact", "C09_tcp_prefix_exact", "C09_framing_never_panics",
     "C09_tcp_short_read", "C09_answers_on_chain_unless_referral", "C09_known_referral_witness",
     "C09_unserialisable_reply_servfail_witness",
+    "C09_authoritative_only_never_recurses", "C09_owned_name_reply", "C09_nxdomain_only_from_auth_zone",
 ]
 RULE = ("pure cases (harness): framing of byte strings of 0..70000 octets around the 12 / 512 / 65535 boundaries with every value "
         "of octet 2, TCP streams with every relation of announced and delivered length, decode + make_response; non-trivial = "
